@@ -11,11 +11,13 @@ var vErr = fmt.Errorf("verif: chain failure")
 // transactions are identified by their locktime; the engine-side hash is the
 // identifier in the first byte (double SHA-256 of the serialisation is outside)
 func vTxHash(t *bitcoin.Transaction) bitcoin.Hash { return bitcoin.Hash{0x7c, byte(t.Locktime)} }
-func vHashOf(id int) bitcoin.Hash                { return bitcoin.Hash{0x7c, byte(id)} }
+func vHashOf(id int) bitcoin.Hash                 { return bitcoin.Hash{0x7c, byte(id)} }
+func vSpentHashOf(id int) bitcoin.Hash            { return bitcoin.Hash{0x5e, byte(id)} }
 
 var vPKH = [20]byte{9, 9, 9}
 
 type vworld struct {
+	keyedRequests bool
 	BridgeChain
 	bitcoin.Chain
 	registered        [32]byte
@@ -78,10 +80,19 @@ func (w *vworld) GetMempoolUtxosForPublicKeyHash([20]byte) ([]*bitcoin.UnspentTr
 	}
 	return w.mempool, nil
 }
+
+// requests are registered for the outpoints the transactions' first inputs
+// spend (and for nothing else), so asking about any other outpoint finds none
 func (w *vworld) GetDepositRequest(h bitcoin.Hash, idx uint32) (*DepositChainRequest, bool, error) {
+	if w.keyedRequests && (h[0] != 0x5e || idx != 1) {
+		return nil, false, nil
+	}
 	return nil, w.firstInputIsDep[h[1]&3], nil
 }
 func (w *vworld) GetMovedFundsSweepRequest(h bitcoin.Hash, idx uint32) (*MovedFundsSweepRequest, bool, error) {
+	if w.keyedRequests && (h[0] != 0x5e || idx != 1) {
+		return nil, false, nil
+	}
 	return nil, w.firstInputIsSweep[h[1]&3], nil
 }
 
@@ -166,10 +177,10 @@ func VerifC34_MainUtxo() {
 }
 
 func VerifC34_SyncCheck() {
-	w := &vworld{eConfirmed: vBool(), eMempool: vBool()}
+	w := &vworld{eConfirmed: vBool(), eMempool: vBool(), keyedRequests: true}
 	for t := 0; t < 3; t++ { // three fixed transactions; their first inputs are looked up in the request tables
 		w.txs = append(w.txs, &bitcoin.Transaction{Version: 1, Locktime: uint32(t + 1),
-			Inputs: []*bitcoin.TransactionInput{{Outpoint: &bitcoin.TransactionOutpoint{TransactionHash: vHashOf(t + 1)}}}})
+			Inputs: []*bitcoin.TransactionInput{{Outpoint: &bitcoin.TransactionOutpoint{TransactionHash: vSpentHashOf(t + 1), OutputIndex: 1}}}})
 	}
 	mk := func() *bitcoin.UnspentTransactionOutput {
 		id := int(vU8())
